@@ -74,6 +74,12 @@ fn main() {
         println!("libs ok={ok} rejected={bad} bytes={bytes} in {:?}; features {feats:?}", t0.elapsed());
         return;
     }
+    if id == "probe-c19-fixed" {
+        for k in 0..3u8 {
+            println!("fixed {k}: {}", props::c19::probe_fixed(k));
+        }
+        return;
+    }
     if id == "probe-enc" {
         // check probe-enc <text|@file>: resolve without packages, encode, print as WAT
         let text = rest.join(" ");
@@ -122,6 +128,7 @@ fn main() {
         "C01" => props::c01::run(tier, seed, replay.as_deref()),
         "C02" => props::c02::run(tier, seed, replay.as_deref()),
         "C03" => props::c03::run(tier, seed, replay.as_deref()),
+        "C19" => props::c19::run(tier, seed, replay.as_deref()),
         "C04" => props::c04::run(tier, seed, replay.as_deref()),
         "C05" => props::c05::run(tier, seed, replay.as_deref()),
         "C11" => props::c11::run(tier, seed, replay.as_deref()),
